@@ -7,7 +7,9 @@ import (
 	"encoding/json"
 	"errors"
 	"fmt"
+	"io"
 	"net"
+	"os"
 	"sync"
 	"time"
 
@@ -128,28 +130,104 @@ func outcome(hostPanicked bool, msg string, rec recorded, renterErr error) (stri
 	return "reject", renterErr
 }
 
-// pipe returns the two ends of a loopback TCP connection (buffered, unlike
-// net.Pipe: the handlers answer before the peer has finished writing).
-func pipe() (net.Conn, net.Conn) {
-	l, err := net.Listen("tcp", "127.0.0.1:0")
-	if err != nil {
-		panic(err)
-	}
-	defer l.Close()
-	ch := make(chan net.Conn, 1)
-	go func() {
-		c, err := l.Accept()
-		if err != nil {
-			ch <- nil
-			return
+// halfPipe is one direction of an in-memory connection with an unbounded buffer
+// (net.Pipe is unbuffered: the handlers answer before the peer has finished
+// writing its request, which would block both sides; real sockets exhaust the
+// ephemeral port range at this call rate).
+type halfPipe struct {
+	mu       sync.Mutex
+	cond     *sync.Cond
+	buf      []byte
+	closed   bool
+	deadline time.Time
+	timer    *time.Timer
+}
+
+func newHalfPipe() *halfPipe {
+	h := &halfPipe{}
+	h.cond = sync.NewCond(&h.mu)
+	return h
+}
+
+func (h *halfPipe) read(p []byte) (int, error) {
+	h.mu.Lock()
+	defer h.mu.Unlock()
+	for {
+		if len(h.buf) > 0 {
+			n := copy(p, h.buf)
+			h.buf = h.buf[n:]
+			return n, nil
 		}
-		ch <- c
-	}()
-	b, err := net.DialTimeout("tcp", l.Addr().String(), 5*time.Second)
-	if err != nil {
-		panic(err)
+		if h.closed {
+			return 0, io.EOF
+		}
+		if !h.deadline.IsZero() && !time.Now().Before(h.deadline) {
+			return 0, os.ErrDeadlineExceeded
+		}
+		h.cond.Wait()
 	}
-	a := <-ch
+}
+
+func (h *halfPipe) write(p []byte) (int, error) {
+	h.mu.Lock()
+	defer h.mu.Unlock()
+	if h.closed {
+		return 0, io.ErrClosedPipe
+	}
+	h.buf = append(h.buf, p...)
+	h.cond.Broadcast()
+	return len(p), nil
+}
+
+func (h *halfPipe) close() {
+	h.mu.Lock()
+	h.closed = true
+	if h.timer != nil {
+		h.timer.Stop()
+	}
+	h.cond.Broadcast()
+	h.mu.Unlock()
+}
+
+func (h *halfPipe) setDeadline(t time.Time) {
+	h.mu.Lock()
+	h.deadline = t
+	if h.timer != nil {
+		h.timer.Stop()
+		h.timer = nil
+	}
+	if !t.IsZero() && !h.closed {
+		h.timer = time.AfterFunc(time.Until(t), func() {
+			h.mu.Lock()
+			h.cond.Broadcast()
+			h.mu.Unlock()
+		})
+	}
+	h.cond.Broadcast()
+	h.mu.Unlock()
+}
+
+type memAddr struct{}
+
+func (memAddr) Network() string { return "mem" }
+func (memAddr) String() string  { return "mem" }
+
+// memConn is one end of the in-memory connection.
+type memConn struct{ r, w *halfPipe }
+
+func (c *memConn) Read(p []byte) (int, error)         { return c.r.read(p) }
+func (c *memConn) Write(p []byte) (int, error)        { return c.w.write(p) }
+func (c *memConn) Close() error                       { c.r.close(); c.w.close(); return nil }
+func (c *memConn) LocalAddr() net.Addr                { return memAddr{} }
+func (c *memConn) RemoteAddr() net.Addr               { return memAddr{} }
+func (c *memConn) SetDeadline(t time.Time) error      { c.r.setDeadline(t); return nil }
+func (c *memConn) SetReadDeadline(t time.Time) error  { c.r.setDeadline(t); return nil }
+func (c *memConn) SetWriteDeadline(t time.Time) error { return nil }
+
+// pipe returns the two ends of a buffered in-memory connection.
+func pipe() (net.Conn, net.Conn) {
+	ab, ba := newHalfPipe(), newHalfPipe()
+	a, b := &memConn{r: ba, w: ab}, &memConn{r: ab, w: ba}
 	dl := time.Now().Add(20 * time.Second)
 	a.SetDeadline(dl)
 	b.SetDeadline(dl)
